@@ -49,6 +49,16 @@ std::vector<long long> month_deltas()
     }
     return v;
 }
+// months for the compound-assignment sweeps: the twelve ok ones and not-ok stored values (the standard defines ym + months for those
+// too: the z with z.ok() && z - ym == dm); 255 last, so that a precondition rejecting it only costs the tail of the case
+std::vector<unsigned> sweep_months() { return {1, 2, 3, 4, 5, 6, 7, 8, 9, 10, 11, 12, 0, 13, 24, 25, 100, 254, 255}; }
+char const* month_sit(unsigned m, long long k)
+{
+    if (m >= 1 && m <= 12) { return carry_sit(m, k); }
+    if (m == 0) { return k == 0 ? "month-stored=0,delta=0" : (k > 0 ? "month-stored=0,delta>0" : "month-stored=0,delta<0"); }
+    if (m == 255) { return k == 0 ? "month-stored=255,delta=0" : (k > 0 ? "month-stored=255,delta>0" : "month-stored=255,delta<0"); }
+    return k == 0 ? "month-stored-13..254,delta=0" : (k > 0 ? "month-stored-13..254,delta>0" : "month-stored-13..254,delta<0");
+}
 std::vector<long long> year_deltas(int y) { return {0, 1, -1, 4, -4, 400, -400, (long long)vfcal::kYearMax - y, (long long)vfcal::kYearMin - y}; }
 
 struct Val {
@@ -190,18 +200,18 @@ void year_case(int y)
     // ---- compound assignment
     struct WI { unsigned wd, i; };
     WI const wis[] = {{0, 1}, {3, 5}, {6, 4}};
-    for (unsigned m = 1; m <= 12; ++m) {
+    for (unsigned m : sweep_months()) {
         for (WI wi : wis) {
             for (long long k : month_deltas()) {
                 std::snprintf(args, sizeof args, "y=%d m=%u wd=%u[%u] dm=%lld", y, m, wi.wd, wi.i, k);
                 std::uint64_t h = vf::mix(vf::mix((std::uint64_t)(y + 40000), m * 64 + wi.wd * 8 + wi.i), (std::uint64_t)k);
                 if (year_in_range((long long)y + fdiv((long long)m - 1 + k, 12))) {
-                    CMPV("year_month_weekday", "ymwd+=months", carry_sit(m, k), h, args, (ymwd_addeq_m<SN>(s_ymwd(y, m, wi.wd, wi.i), k)), (ymwd_addeq_m<EN>(e_ymwd(y, m, wi.wd, wi.i), k)));
-                    CMPV("year_month_weekday", "(ymwd+=months)-=months", carry_sit(m, k), h, args, (ymwd_ch_addsub_m<SN>(s_ymwd(y, m, wi.wd, wi.i), k)), (ymwd_ch_addsub_m<EN>(e_ymwd(y, m, wi.wd, wi.i), k)));
+                    CMPV("year_month_weekday", "ymwd+=months", month_sit(m, k), h, args, (ymwd_addeq_m<SN>(s_ymwd(y, m, wi.wd, wi.i), k)), (ymwd_addeq_m<EN>(e_ymwd(y, m, wi.wd, wi.i), k)));
+                    CMPV("year_month_weekday", "(ymwd+=months)-=months", month_sit(m, k), h, args, (ymwd_ch_addsub_m<SN>(s_ymwd(y, m, wi.wd, wi.i), k)), (ymwd_ch_addsub_m<EN>(e_ymwd(y, m, wi.wd, wi.i), k)));
                 }
                 if (year_in_range((long long)y + fdiv((long long)m - 1 - k, 12))) {
-                    CMPV("year_month_weekday", "ymwd-=months", carry_sit(m, -k), h, args, (ymwd_subeq_m<SN>(s_ymwd(y, m, wi.wd, wi.i), k)), (ymwd_subeq_m<EN>(e_ymwd(y, m, wi.wd, wi.i), k)));
-                    CMPV("year_month_weekday", "(ymwd-=months)+=months", carry_sit(m, -k), h, args, (ymwd_ch_subadd_m<SN>(s_ymwd(y, m, wi.wd, wi.i), k)), (ymwd_ch_subadd_m<EN>(e_ymwd(y, m, wi.wd, wi.i), k)));
+                    CMPV("year_month_weekday", "ymwd-=months", month_sit(m, -k), h, args, (ymwd_subeq_m<SN>(s_ymwd(y, m, wi.wd, wi.i), k)), (ymwd_subeq_m<EN>(e_ymwd(y, m, wi.wd, wi.i), k)));
+                    CMPV("year_month_weekday", "(ymwd-=months)+=months", month_sit(m, -k), h, args, (ymwd_ch_subadd_m<SN>(s_ymwd(y, m, wi.wd, wi.i), k)), (ymwd_ch_subadd_m<EN>(e_ymwd(y, m, wi.wd, wi.i), k)));
                 }
             }
             for (long long k : year_deltas(y)) {
@@ -288,21 +298,21 @@ void year_case(int y)
             CMPV("year_month_weekday_last", "accessors/ok()", sit, vf::mix((std::uint64_t)(y + 40000), m * 16 + wd), args, v_ymwdl(s_mk(y, m, wd)), v_ymwdl(e_mk(y, m, wd)));
         }
     }
-    for (unsigned m = 1; m <= 12; ++m) {
+    for (unsigned m : sweep_months()) {
         unsigned const wd = (m * 3) % 7;
         for (long long k : month_deltas()) {
             std::snprintf(args, sizeof args, "y=%d m=%u wd=%u[last] dm=%lld", y, m, wd, k);
             std::uint64_t h = vf::mix(vf::mix((std::uint64_t)(y + 40000), m), (std::uint64_t)k);
             if (year_in_range((long long)y + fdiv((long long)m - 1 + k, 12))) {
-                CMPV("year_month_weekday_last", "ymwdl+months", carry_sit(m, k), h, args, add_m<SN>(s_mk(y, m, wd), k), add_m<EN>(e_mk(y, m, wd), k));
-                CMPV("year_month_weekday_last", "months+ymwdl", carry_sit(m, k), h, args, radd_m<SN>(s_mk(y, m, wd), k), radd_m<EN>(e_mk(y, m, wd), k));
-                CMPV("year_month_weekday_last", "ymwdl+=months", carry_sit(m, k), h, args, addeq_m<SN>(s_mk(y, m, wd), k), addeq_m<EN>(e_mk(y, m, wd), k));
-                CMPV("year_month_weekday_last", "(ymwdl+=months)-=months", carry_sit(m, k), h, args, ch_addsub_m<SN>(s_mk(y, m, wd), k), ch_addsub_m<EN>(e_mk(y, m, wd), k));
+                CMPV("year_month_weekday_last", "ymwdl+months", month_sit(m, k), h, args, add_m<SN>(s_mk(y, m, wd), k), add_m<EN>(e_mk(y, m, wd), k));
+                CMPV("year_month_weekday_last", "months+ymwdl", month_sit(m, k), h, args, radd_m<SN>(s_mk(y, m, wd), k), radd_m<EN>(e_mk(y, m, wd), k));
+                CMPV("year_month_weekday_last", "ymwdl+=months", month_sit(m, k), h, args, addeq_m<SN>(s_mk(y, m, wd), k), addeq_m<EN>(e_mk(y, m, wd), k));
+                CMPV("year_month_weekday_last", "(ymwdl+=months)-=months", month_sit(m, k), h, args, ch_addsub_m<SN>(s_mk(y, m, wd), k), ch_addsub_m<EN>(e_mk(y, m, wd), k));
             }
             if (year_in_range((long long)y + fdiv((long long)m - 1 - k, 12))) {
-                CMPV("year_month_weekday_last", "ymwdl-months", carry_sit(m, -k), h, args, sub_m<SN>(s_mk(y, m, wd), k), sub_m<EN>(e_mk(y, m, wd), k));
-                CMPV("year_month_weekday_last", "ymwdl-=months", carry_sit(m, -k), h, args, subeq_m<SN>(s_mk(y, m, wd), k), subeq_m<EN>(e_mk(y, m, wd), k));
-                CMPV("year_month_weekday_last", "(ymwdl-=months)+=months", carry_sit(m, -k), h, args, ch_subadd_m<SN>(s_mk(y, m, wd), k), ch_subadd_m<EN>(e_mk(y, m, wd), k));
+                CMPV("year_month_weekday_last", "ymwdl-months", month_sit(m, -k), h, args, sub_m<SN>(s_mk(y, m, wd), k), sub_m<EN>(e_mk(y, m, wd), k));
+                CMPV("year_month_weekday_last", "ymwdl-=months", month_sit(m, -k), h, args, subeq_m<SN>(s_mk(y, m, wd), k), subeq_m<EN>(e_mk(y, m, wd), k));
+                CMPV("year_month_weekday_last", "(ymwdl-=months)+=months", month_sit(m, -k), h, args, ch_subadd_m<SN>(s_mk(y, m, wd), k), ch_subadd_m<EN>(e_mk(y, m, wd), k));
             }
         }
         for (long long k : year_deltas(y)) {
